@@ -77,6 +77,14 @@ func c11(c *core.Ctx, r *core.Report) {
 			}
 		}
 		if !emits {
+			// helpers the arm delegates to: the arm emits if addConstraint is in their call cone
+			for f := range g.Cone(false, roots...) {
+				if f.Name() == "addConstraint" && c.FuncPkgRel(f) == "internal/pointer" {
+					emits = true
+				}
+			}
+		}
+		if !emits {
 			if why, ok := noConstraintKinds[name]; ok {
 				r.Except("R11.gen", key, c.Pos(cl.Clause.Pos()), why)
 			} else {
@@ -146,7 +154,31 @@ func c11(c *core.Ctx, r *core.Report) {
 			kinds = append(kinds, strings.TrimPrefix(core.ShortType(t), "*ssa."))
 		}
 		k := 0
+		// the arm's statements, and the bodies of helpers it hands the typed instruction to (an arm moved into
+		// `genUnOp(cgn, instr)` is still the arm)
+		var bodies []ast.Node
 		for _, st := range cl.Clause.Body {
+			bodies = append(bodies, st)
+		}
+		for _, o := range core.CallsIn(cl.Clause.Body, info) {
+			f, ok := o.(*types.Func)
+			if !ok || f.Pkg() == nil || f.Pkg().Path() != core.Module+"/internal/pointer" {
+				continue
+			}
+			sig := f.Type().(*types.Signature)
+			takesKind := false
+			for i := 0; i < sig.Params().Len(); i++ {
+				for _, kind := range kinds {
+					if core.ShortType(sig.Params().At(i).Type()) == "*ssa."+kind {
+						takesKind = true
+					}
+				}
+			}
+			if fd := c.DeclOfObj(f); takesKind && fd != nil && fd.Body != nil {
+				bodies = append(bodies, fd.Body)
+			}
+		}
+		for _, st := range bodies {
 			ast.Inspect(st, func(n ast.Node) bool {
 				call, ok := n.(*ast.CallExpr)
 				if !ok || len(call.Args) != 3 {
